@@ -11,5 +11,5 @@ for P in $PIDS; do
   (cd /verif && VERIF_REPO=$W/wt timeout 3000 ./check $P --tier ${TIER:-quick} 2>&1 | grep -E "^(VIOLATION|KNOWN-FINDING)|Traceback|Error" | cut -c1-300 | head -8; echo "exit=${PIPESTATUS[0]}")
 done
 git -C /repo worktree remove --force $W/wt; rm -rf $W
-# restore generated files / caches for the real tree
-(cd /verif && python3 tools/cpp2v.py tools/cpp2v_specs coq/theories/Gen --repo /repo > /dev/null 2>&1)
+# scratch runs use private build/ and coq/ copies (vlib/common.py), nothing to restore; remove them
+rm -rf /verif/build/scratch-*
